@@ -165,6 +165,12 @@ def main():
         chk.bounds.append('NewSchnorrPrivateKeyFromECDSA / NewSchnorrPublicKeyFromPoint / ...FromECDSA: toy curves %s, all keys / all points incl. identity' % toys)
         chk.outside.append('messages longer than 64 bytes in the signing data-flow obligations (the message is an opaque hash input; the tagged-hash layout for every length 0..320 is C13 taggedhash/*)')
 
+    # contracts this check's toy layer uses for routines named in the property's own file list: re-decided here (see common.include_dependency)
+    from .common import include_dependency
+    if not only or 'dep' in only:
+        include_dependency(chk, tasks, 'C05', 'table lookup basemult key', 'signing computes d*G and k*G with ScalarBaseMult (toy layer: contract)')
+        include_dependency(chk, tasks, 'C13', 'tagged', 'the aux / nonce / challenge hashes are schnorrTaggedHash of the listed inputs for a message of any length; the signing data-flow '
+                           'obligations use messages of at most 64 bytes, the byte layout of the tagged hash for every length is decided here')
     chk.run_tasks(tasks)
     chk.discharge()
     chk.finish()
